@@ -4,10 +4,12 @@ C13, wave 6 — the REST of the public surface of `src/algo/isomorphism.rs`: the
 `subgraph_isomorphisms_iter` returns (`GraphMatcher`) overrides exactly two methods of `Iterator`, `next`
 (mirrored in `Model/C13Vf2.lean`) and `size_hint` (mirrored HERE).  Core Lean only.
 
-`size_hint` (isomorphism.rs:764-804) does not look at the search state: with `n = g0.node_count()` it returns
-`(0, None)` if `n > 21` (`n > upper_bounds.len()`, the table has 21 entries `0!..20!`), otherwise
-`(0, upper_bounds[n])` — which for `n = 21` is an index out of bounds (a panic), and for `n ≤ 20` is `n!` on a
-64-bit `usize` (`usize::try_from(20!)` succeeds).
+`size_hint` (isomorphism.rs:764-804, as repaired by a69e23d: finding D34) does not look at the search state: with
+`n = g1.node_count()` (the TARGET, "graph 1" of the code's comment) it returns `(0, None)` if `n ≥ 21`
+(`n >= upper_bounds.len()`, the table has 21 entries `0!..20!`), otherwise `(0, upper_bounds[n])` — the index is
+in bounds by that very test (no panic), and the entry is `n!` on a 64-bit `usize` (`usize::try_from(20!)`
+succeeds).  Before the repair `n` was the PATTERN's node count (an upper bound `n0!` although up to
+`n1!/(n1-n0)!` mappings are yielded) and the test was `n > len` (`upper_bounds[21]`: a panic for 21 nodes).
 
 The judge `judgeHint` says what the `Iterator` contract demands of a `size_hint` taken after `k` items were
 consumed: the lower bound is at most, and the upper bound (if any) at least, the number of items still to come —
@@ -25,13 +27,11 @@ def hintTable : List Nat :=
   [1, 1, 2, 6, 24, 120, 720, 5040, 40320, 362880, 3628800, 39916800, 479001600, 6227020800, 87178291200,
    1307674368000, 20922789888000, 355687428096000, 6402373705728000, 121645100408832000, 2432902008176640000]
 
-/-- `GraphMatcher::size_hint` for a pattern with `n0` nodes (64-bit `usize`); `none` = the call panics
-(`upper_bounds[21]`: index out of bounds) -/
-def sizeHintModel (n0 : Nat) : Option (Nat × Option Nat) :=
-  if n0 > hintTable.length then some (0, none)
-  else match hintTable[n0]? with
-    | some h => some (0, some h)
-    | none => none
+/-- `GraphMatcher::size_hint` for a TARGET with `n1` nodes (64-bit `usize`).  The result is never `none` (the
+type is kept for `showHint`; `none` would be a panic): the bound test is what makes the index legal -/
+def sizeHintModel (n1 : Nat) : Option (Nat × Option Nat) :=
+  if h : n1 ≥ hintTable.length then some (0, none)
+  else some (0, some (hintTable[n1]'(Nat.lt_of_not_ge h)))
 
 /-- `n1 * (n1-1) * … * (n1-n0+1)`: the number of injections of an `n0`-set into an `n1`-set -/
 def falling (n1 : Nat) : Nat → Nat
